@@ -287,10 +287,23 @@ PROPS = {'C18': {'title': 'Inflights window is a bounded FIFO under resizing',
                          'VecDeque::front/back standard semantics'],
          'bounded': ['mon_c04: single-voter RawNode with late / repeated / stale notices', 'mon_cluster --prop C04']},
  'C12': {'title': 'Configuration-change algebra keeps invariants and quorum overlap',
-         'modules': ['top', 'prelude', 'pb', 'inflights', 'progress', 'quorum', 'tracker', 'confchange'],
-         'body': ['confchange'],
-         'cone': ['quorum', 'tracker'],
-         'modes': ['P'],
+         'modules': {'P': ['top', 'prelude', 'pb', 'inflights', 'progress', 'quorum', 'tracker', 'confchange'],
+                     'S': ['top',
+                           'prelude',
+                           'pb',
+                           'inflights',
+                           'progress',
+                           'quorum',
+                           'tracker',
+                           'confchange',
+                           'log_unstable',
+                           'storage_trait',
+                           'raft_log',
+                           'raft',
+                           'raft_conf']},
+         'body': {'P': ['confchange'], 'S': []},
+         'cone': {'P': ['quorum', 'tracker'], 'S': ['raft_conf']},
+         'modes': ['P', 'S'],
          'claim': 'PROOF for Changer::{simple, enter_joint, leave_joint}, ProgressTracker::apply_conf, confchange::restore (partial correctness: IF it '
                   'succeeds it reproduces the configuration the ConfState describes) and the quorum-overlap lemmas; Configuration::to_conf_state is not under '
                   'contract',
@@ -310,7 +323,8 @@ PROPS = {'C18': {'title': 'Inflights window is a bounded FIFO under resizing',
                      'of the ConfState (auto_leave included) and progress is tracked for exactly its members (replay lemmas over the reference step function, '
                      'four phases)',
                      'lemma_c12_{simple,enter_joint,leave_joint}_overlap: a deciding set (strict majority of incoming, and of outgoing when joint) before the '
-                     'change shares a voter with any deciding set after it, for the result shapes the three contracts establish'],
+                     'change shares a voter with any deciding set after it, for the result shapes the three contracts establish',
+                     "Raft::apply_conf_change applies exactly the algebra's result to the running node (see C09) and rejected changes leave it untouched"],
          'undecided': ['that restore never FAILS on the ConfState of a reachable configuration, and Configuration::to_conf_state itself (HashSet -> Vec '
                        'collect): only the bounded monitor mon_c12 exercises the full round trip through Raft::new',
                        'that callers (Raft::apply_conf_change) only pass configurations satisfying cfg_inv (needs the invariant over the whole run)'],
@@ -339,7 +353,19 @@ PROPS = {'C18': {'title': 'Inflights window is a bounded FIFO under resizing',
          'cone': {'P': [], 'S': ['raft']},
          'bounded': []},
  'C09': {'title': 'Membership changes: one at a time, config is a function of applied log',
-         'modules': ['top', 'prelude', 'pb', 'inflights', 'progress', 'quorum', 'tracker', 'log_unstable', 'storage_trait', 'raft_log', 'raft'],
+         'modules': ['top',
+                     'prelude',
+                     'pb',
+                     'inflights',
+                     'progress',
+                     'quorum',
+                     'tracker',
+                     'confchange',
+                     'log_unstable',
+                     'storage_trait',
+                     'raft_log',
+                     'raft',
+                     'raft_conf'],
          'body': {'S': []},
          'modes': ['S'],
          'claim': 'PARTIAL ((a) one membership change at a time, (b) no election with an unapplied change, (d) non-voters never campaign; (c) configuration as '
@@ -352,7 +378,11 @@ PROPS = {'C18': {'title': 'Inflights window is a bounded FIFO under resizing',
                      'commit_apply: the automatic leave-joint proposal fires iff the configuration is an auto-leave joint one, the applied index passes '
                      'pending_conf_index and the node leads; the appended entry is an empty EntryConfChangeV2 of the current term and becomes the pending '
                      'change; a (pre-)candidate that learns through a vote message that a membership change in (commit, new commit] is committed and unapplied '
-                     "becomes follower; Raft::new: the tracker's configuration equals the stored ConfState and promotable iff voter"],
+                     "becomes follower; Raft::new: the tracker's configuration equals the stored ConfState and promotable iff voter",
+                     "Raft::apply_conf_change (raft.rs linked with the membership unit): on success the tracker's configuration is exactly what the C12 "
+                     'algebra assigns to the change (leave-joint / enter-joint with the requested auto-leave flag / simple), progress is tracked for exactly '
+                     'its members whenever that held before, the returned ConfState lists the new configuration and promotable is recomputed from it; a '
+                     'rejected change leaves the whole Raft untouched; term, vote and role are kept'],
          'undecided': ['identical configurations at equal applied index across nodes (history statement)'],
          'assumptions': ['mode S for raft.rs and raw_node.rs (fatal!/panic!/assert! abort; postconditions hold on normal return)',
                          'assumed contracts (fingerprint-locked in spec/assumed.lock.json): ProgressTracker::{get_mut, record_vote}, '
@@ -361,7 +391,7 @@ PROPS = {'C18': {'title': 'Inflights window is a bounded FIFO under resizing',
                          '(verif_ri_*)',
                          'specified helpers for std / protobuf calls (R9) and the three cut texts (R10) listed in the evidence file',
                          'protobuf decoding of proposed membership changes (uninterpreted)'],
-         'cone': {'S': ['raft']},
+         'cone': {'S': ['raft', 'raft_conf']},
          'bounded': ['K-ext Kani c09_has_unapplied_conf_changes: real text of RaftLog::scan + has_unapplied_conf_changes, logs <= 3 entries, every page '
                      'split']},
  'C17': {'title': 'Leadership transfer hands off safely and never wedges the leader',
